@@ -126,16 +126,16 @@ class CreateCheck:
         # R, trees
         if quick:
             shapes3 = ["D2", "D2n", "D3", "D3s", "D3o", "D3u", "D3n", "D3t",
-                       "D3d", "D3p", "D3b", "D3num"]
+                       "D3d", "D3p", "D3b", "D3num", "D3e"]
             shapes4 = ["D4"]
             Ps = [16384, 32768]
         else:
             shapes3 = ["D2", "D2n", "D3", "D3s", "D3o", "D3u", "D3x", "D3n",
-                       "D3t", "D3d", "D3p", "D3b", "D3num"]
+                       "D3t", "D3d", "D3p", "D3b", "D3num", "D3e"]
             shapes4 = ["D4", "D4n", "D5"]
             Ps = [16384, 32768, 65536]
         if pid in ("C02", "C03", "C10") and quick:
-            shapes3 = ["D2n", "D3", "D3o", "D3u", "D3n", "D3t", "D3d", "D3p", "D3b", "D3num"]
+            shapes3 = ["D2n", "D3", "D3o", "D3u", "D3n", "D3t", "D3d", "D3p", "D3b", "D3num", "D3e"]
         for P in Ps:
             for sh in shapes3 + shapes4:
                 n = world.nfiles(sh)
@@ -249,7 +249,7 @@ class CreateCheck:
         tree = dict(files)
         parent = world.fresh_dir()
         name = w.get("rootname") or world.ROOT_NAME
-        path = world.materialize(files, parent, name=name)
+        path = world.materialize(files, parent, name=name, shape=w["shape"])
         out = {}
         trans = 0
         tf.reset_process_state()
